@@ -148,10 +148,18 @@ func goroutineIDs() []string {
 func thunderStacks(ignore []string) []string {
 	gs := vlib.ThunderGoroutines(ignore...)
 	for i := range gs {
-		gs[i] = vlib.Trunc(gs[i], 2500)
+		gs[i] = truncMiddle(gs[i], 1200, 4000)
 	}
 	if len(gs) > 12 {
 		gs = gs[:12]
 	}
 	return gs
+}
+
+// truncMiddle keeps the innermost and the outermost frames of a long stack.
+func truncMiddle(s string, head, tail int) string {
+	if len(s) <= head+tail+20 {
+		return s
+	}
+	return s[:head] + "\n\t[...]\n" + s[len(s)-tail:]
 }
